@@ -294,20 +294,45 @@ def key_worker(job):
 # =====================================================================================================================
 # wallets
 # =====================================================================================================================
-WALLET_KINDS = [('hd', 'segwit'), ('hd', 'legacy'), ('hd', 'p2sh-segwit'), ('single', 'legacy'), ('single', 'segwit'),
-                ('ms', 'legacy'), ('ms', 'segwit'), ('hd', 'segwit')]
-W_FILLERS = ['get_key', 'new_key', 'key_lookup', 'mainkey_key', 'wif_priv', 'as_dict_priv', 'keys_priv', 'send', 'send', 'reopen']
-W_VIEWS = ['repr', 'as_dict', 'info', 'wif_pub', 'public_master', 'keys_as_dict', 'wk_repr', 'wk_repr', 'wk_as_dict', 'wk_public',
-           'tx_views', 'tx_save', 'tx_save', 'addresses']
+WTS = ['legacy', 'segwit', 'p2sh-segwit']
+# wallet creation routes: (route, witness type or None = seeded choice)
+WALLET_KINDS = [('hd_master', 'segwit'), ('hd_acct_priv', None), ('single_wif', None), ('ms_priv_pub', None), ('hd_flat_path', None),
+                ('hd_master', 'legacy'), ('hd_acct_priv_wif', None), ('single_hex', None), ('ms_pub_priv_pub', None), ('hd_unhardened_account', None),
+                ('hd_master', 'p2sh-segwit'), ('hd_xprv', None), ('single_key', None), ('ms_priv_priv_pub', None), ('hd_short_hardened', None),
+                ('hd_generated', None), ('single_hdkey', None), ('ms_acctpriv_pub', None), ('ms_single_keys', 'legacy'), ('hd_other_depth', None),
+                ('hd_passphrase', None), ('hd_purpose', None)]
+MAY_REFUSE = ('hd_other_depth',)         # creation routes the library may legitimately refuse
+W_FILLERS = ['get_key', 'new_key', 'new_account', 'key_lookup', 'mainkey_key', 'wif_priv', 'as_dict_priv', 'keys_priv', 'send', 'send', 'reopen']
+W_VIEWS = ['repr', 'as_dict', 'info', 'wif_pub', 'public_master', 'keys_as_dict', 'wk_repr', 'wk_as_dict', 'wk_public',
+           'tx_views', 'tx_save', 'addresses']
+W_WATCH_BATTERY = ['as_dict_priv', 'wif_priv', 'keys_priv', 'public_master', 'wk_repr', 'mainkey_key', 'as_dict', 'send', 'tx_save']
+
+
+def shown(v):
+    """A returned value together with its repr and str (and those of the elements of a returned list)."""
+    if v is None or isinstance(v, (str, bytes, int, float, dict)):
+        return [v]
+    if isinstance(v, (list, tuple)):
+        return [shown(x) for x in v]
+    out = [v]
+    for f in (repr, str):
+        try:
+            out.append(f(v))
+        except Exception:
+            pass
+    return out
 
 
 class WalletWorld:
     def __init__(self, wkind, seed):
         from bitcoinlib.wallets import Wallet
-        from bitcoinlib.keys import HDKey
+        from bitcoinlib.keys import HDKey, Key
+        from bitcoinlib.mnemonic import Mnemonic
         self.rng = rng = random.Random(seed)
-        self.scheme, self.wt = wkind
-        self.net = 'bitcoinlib_test'
+        route, wt = wkind
+        self.route = route
+        self.wt = wt = wt or rng.choice(WTS)
+        self.net = net = 'bitcoinlib_test'
         self.dir = tempfile.mkdtemp(prefix='c16w_', dir=os.environ['BCL_DATA_DIR'])
         self.db_uri = 'sqlite:///' + os.path.join(self.dir, 'wallet.sqlite')
         self.name = 'c16_%d' % seed
@@ -316,20 +341,74 @@ class WalletWorld:
         self.watch = False
         self.tx = None
         self.nwatch = 0
-        if self.scheme == 'hd':
-            self.w = Wallet.create(self.name, network=self.net, witness_type=self.wt, db_uri=self.db_uri)
-        elif self.scheme == 'single':
-            self.w = Wallet.create(self.name, keys=HDKey(network=self.net, witness_type=self.wt), network=self.net,
-                                   witness_type=self.wt, scheme='single', db_uri=self.db_uri)
+        self.cosigner_priv = None
+        self.scheme = 'single' if route.startswith('single') else ('ms' if route.startswith('ms') else 'hd')
+        kw = {'witness_type': wt}          # creation arguments, reused (with the exported keys) for the watch-only wallet
+        if route == 'hd_master':
+            keys = HDKey(network=net, witness_type=wt)
+        elif route == 'hd_xprv':
+            keys = HDKey(network=net, witness_type=wt).wif_private()
+        elif route == 'hd_generated':
+            keys = None
+        elif route == 'hd_passphrase':
+            keys = Mnemonic().generate()
+        elif route == 'hd_purpose':
+            keys = HDKey(network=net, witness_type=wt)
+            kw['purpose'] = rng.choice([0, 45, 100])
+        elif route in ('hd_acct_priv', 'hd_acct_priv_wif'):
+            # a private account key at the depth of the public master
+            keys = HDKey(network=net, witness_type=wt).public_master(account_id=rng.choice([0, 0, 3]), witness_type=wt, as_private=True)
+            if route.endswith('wif'):
+                keys = keys.wif_private()
+        elif route == 'hd_other_depth':
+            path = rng.choice(["m/84'", "m/44'/0'", "m/84'/0'/0'/0", "m/44'/0'/0'/0/3", "m/0/1"])
+            keys = HDKey(network=net, witness_type=wt).subkey_for_path(path)
+        elif route == 'hd_flat_path':
+            keys = HDKey(network=net, witness_type=wt)
+            kw['key_path'] = rng.choice(["m/change/address_index", ["m", "change", "address_index"]])
+        elif route == 'hd_unhardened_account':
+            keys = HDKey(network=net, witness_type=wt)
+            kw['key_path'] = "m/account/change/address_index"
+        elif route == 'hd_short_hardened':
+            keys = HDKey(network=net, witness_type=wt)
+            kw['key_path'] = "m/purpose'/account'/change/address_index"
+        elif route == 'single_wif':
+            keys = Key(network=net).wif()
+        elif route == 'single_hex':
+            keys = Key(network=net).private_hex
+        elif route == 'single_key':
+            keys = Key(network=net, compressed=wt != 'legacy' or rng.random() < 0.6)
+        elif route == 'single_hdkey':
+            keys = HDKey(network=net, witness_type=wt)
+        elif route.startswith('ms'):
+            mk = lambda: HDKey(network=net, witness_type=wt, multisig=True)
+            a, b, c = mk(), mk(), mk()
+            pub = lambda k: k.public_master_multisig(witness_type=wt)
+            self.cosigner_priv = b
+            kw['sigs_required'] = 2
+            if route == 'ms_priv_pub':
+                keys = [a, pub(b)]
+                if rng.random() < 0.5:
+                    keys.reverse()
+            elif route == 'ms_pub_priv_pub':
+                keys = [pub(b), a, pub(c)]
+            elif route == 'ms_priv_priv_pub':
+                keys = [a, c, pub(b)]
+                kw['cosigner_id'] = rng.choice([0, 1])
+            elif route == 'ms_acctpriv_pub':
+                keys = [a.public_master_multisig(witness_type=wt, as_private=True), pub(b)]
+                kw['sigs_required'] = rng.choice([1, 2])
+            else:                       # ms_single_keys: plain keys, no derivation
+                sk = lambda: HDKey(network=net, key_type='single', witness_type=wt)
+                b = sk()
+                self.cosigner_priv = b
+                keys = [sk(), b.public()]
         else:
-            k1 = HDKey(network=self.net, witness_type=self.wt, multisig=True)
-            k2 = HDKey(network=self.net, witness_type=self.wt, multisig=True)
-            self.cosigner_priv = k2
-            keys = [k1, k2.public_master_multisig(witness_type=self.wt)]
-            if rng.random() < 0.5:
-                keys.reverse()
-            self.w = Wallet.create(self.name, keys=keys, sigs_required=2, network=self.net, witness_type=self.wt,
-                                   db_uri=self.db_uri)
+            raise NotImplementedError(route)
+        if self.scheme == 'single':
+            kw['scheme'] = 'single'
+        self.create_kw = kw
+        self.w = Wallet.create(self.name, keys=keys, network=net, db_uri=self.db_uri, **kw)
         self.refresh()
 
     def refresh(self):
@@ -346,12 +425,31 @@ class WalletWorld:
                     self.bypub[bytes(row.public)] = 'k%d' % row.id
 
     def item(self, value, own=(), priv=True, signed=False, what=''):
+        self.refresh()                      # keys created by the call itself are in play as well
         nd = c16_scan.Needles(self.secrets)
         found = nd.scan(value, what)
         own = set(own)
         o = sorted({k.split('.', 1)[1] for k in found if k.split('.', 1)[0] in own})
         x = sorted({k.split('.', 1)[1] for k in found if k.split('.', 1)[0] not in own})
         return {'priv': bool(priv), 'signed': bool(signed), 'own': o, 'other': x, '_where': {k: str(v)[:80] for k, v in found.items()}}
+
+    def accounts(self):
+        try:
+            return [a for a in self.w.accounts()][:3]
+        except Exception:
+            return []
+
+    def make_watch(self, exp, d2):
+        from bitcoinlib.wallets import Wallet
+        self.nwatch += 1
+        uri2 = 'sqlite:///' + os.path.join(d2, 'wallet.sqlite')
+        name2 = '%s_watch%d' % (self.name.split('_watch')[0], self.nwatch)
+        kw = dict(self.create_kw)
+        if self.scheme == 'ms':
+            kw.setdefault('cosigner_id', 0)
+        w2 = Wallet.create(name2, keys=exp, network=self.net, db_uri=uri2, **kw)
+        w2.get_key()
+        return w2, name2, uri2
 
     def files(self, directory):
         b = b''
@@ -370,6 +468,9 @@ class WalletWorld:
             return []
         if c == 'new_key':
             (w.get_key if self.scheme == 'single' else rng.choice([w.new_key, w.new_key_change]))()
+            return []
+        if c == 'new_account':
+            w.new_account()
             return []
         if c == 'key_lookup':
             for row in w.keys()[:14]:
@@ -407,20 +508,36 @@ class WalletWorld:
             return []
         # ---- public views
         if c == 'repr':
-            return [self.item([repr(w), str(w), w.name, w.owner])]
+            return [self.item([repr(w), str(w), w.name, w.owner] + ((shown(w) + shown(w.main_key)) if self.watch else []))]
         if c == 'as_dict':
             return [self.item([w.as_dict(), w.as_json()])]
         if c == 'info':
             det = rng.choice([0, 2, 3, 5, 5])
             return [self.item(captured(lambda: w.info(detail=det)))]
         if c == 'wif_pub':
-            return [self.item([w.wif(), w.wif(is_private=False)])]
+            out = [w.wif(), w.wif(is_private=False)]
+            for a in self.accounts():
+                try:
+                    out.append(w.wif(is_private=False, account_id=a))
+                except Exception:
+                    pass
+            return [self.item(out)]
         if c == 'public_master':
-            pm = w.public_master()
-            pms = pm if isinstance(pm, list) else [pm]
+            # for the default account, every account and every witness type (whatever the wallet supports)
+            targets = [{}] + [{'account_id': a} for a in self.accounts()] + [{'witness_type': x} for x in WTS]
             items = []
-            for p in pms:
-                items.append(self.item([p, repr(p), p.as_dict(), p.wif, p.key(), p.key_private]))
+            for kw in targets:
+                try:
+                    pm = w.public_master(**kw)
+                except Exception:
+                    continue
+                for p in (pm if isinstance(pm, list) else [pm]):
+                    k = p.key()
+                    items.append(self.item([shown(p), p.as_dict(), p.wif, p.key_private, p.keys_private, shown(k),
+                                            [x.as_dict() for x in (k if isinstance(k, list) else [k]) if x is not None]],
+                                           what='public_master(%s)' % kw))
+            if not items:
+                raise LookupError('no public master available')
             return items
         if c == 'keys_as_dict':
             out = [w.keys(as_dict=True)]
@@ -475,24 +592,34 @@ class WalletWorld:
             with open(fn, 'rb') as f:
                 return [self.item(f.read(), own, priv, signed, what='save file')]
         if c == 'to_watch_only':
-            exp = w.wif(is_private=False)
-            self.nwatch += 1
+            # watch-only wallets created (in one new database) from what the wallet hands out as public: the exported
+            # WIF(s), the WIF attribute of the public master key(s), their HDKey objects; the first becomes the subject
+            items = []
+            made = []
             d2 = tempfile.mkdtemp(prefix='c16watch_', dir=os.environ['BCL_DATA_DIR'])
-            uri2 = 'sqlite:///' + os.path.join(d2, 'wallet.sqlite')
-            name2 = '%s_watch%d' % (self.name, self.nwatch)
-            if self.scheme == 'ms':
-                w2 = Wallet.create(name2, keys=exp, sigs_required=2, cosigner_id=0, network=self.net, witness_type=self.wt, db_uri=uri2)
-            elif self.scheme == 'single':
-                w2 = Wallet.create(name2, keys=exp, scheme='single', network=self.net, witness_type=self.wt, db_uri=uri2)
-            else:
-                w2 = Wallet.create(name2, keys=exp, network=self.net, witness_type=self.wt, db_uri=uri2)
-            w2.get_key()
-            w2.utxos_update()
+            for how in ('wif', 'pm_wif', 'pm_key'):
+                try:
+                    if how == 'wif':
+                        exp = w.wif(is_private=False)
+                    else:
+                        pm = w.public_master()
+                        exp = [(p.wif if how == 'pm_wif' else p.key()) for p in pm] if isinstance(pm, list) else \
+                            (pm.wif if how == 'pm_wif' else pm.key())
+                    w2, name2, uri2 = self.make_watch(exp, d2)
+                except Exception:
+                    if how == 'wif':
+                        raise
+                    continue
+                made.append((w2, name2, uri2, d2))
+                items.append(self.item([shown(exp), shown(w2), shown(w2.main_key), w2.as_dict(include_private=True),
+                                        w2.keys(as_dict=True, include_private=True)], what='watch-only wallet object (from %s)' % how))
+            items.append(self.item(self.files(d2), what='watch-only database file'))
             self.refresh()
-            self.w, self.name, self.db_uri, self.dir = w2, name2, uri2, d2
+            self.w, self.name, self.db_uri, self.dir = made[0]
+            self.w.utxos_update()
             self.watch = True
             self.tx = None
-            return [self.item(self.files(d2), what='watch-only database file'), self.item([exp, w2], what='watch-only wallet object')]
+            return items
         raise NotImplementedError(c)
 
 
@@ -502,10 +629,13 @@ def wallet_history(job):
     try:
         ww = WalletWorld(tuple(wkind), seed)
     except Exception as e:
-        return {'rec': {'kind': 'wallet', 'steps': []}, 'where': [], 'setup_error': repr(e), 'wkind': wkind}
+        return {'rec': {'kind': 'wallet', 'steps': []}, 'where': [], 'wkind': [str(x) for x in wkind],
+                'setup_error': None if wkind[0] in MAY_REFUSE else repr(e), 'refused': repr(e)[:120]}
     steps, where = [], []
+    import time as _t
     for c in hist:
         ok, items, err = True, [], ''
+        _t0 = _t.time()
         try:
             items = ww.perform(c)
             ww.refresh()
@@ -515,27 +645,33 @@ def wallet_history(job):
                 ww.w.session.rollback()
             except Exception:
                 pass
-        where.append({'err': err, 'items': [it.pop('_where') for it in items], 'watch': ww.watch})
+        where.append({'err': err, 'items': [it.pop('_where') for it in items], 'watch': ww.watch, 'dt': round(_t.time() - _t0, 3)})
         steps.append({'c': c, 'ok': ok, 'items': items})
-    return {'rec': {'kind': 'wallet', 'steps': steps}, 'where': where, 'setup_error': None, 'wkind': wkind, 'nsecrets': len(ww.secrets)}
+    return {'rec': {'kind': 'wallet', 'steps': steps}, 'where': where, 'setup_error': None, 'wkind': [ww.route, ww.wt], 'nsecrets': len(ww.secrets)}
 
 
 def gen_wallet_history(rng, n):
+    """A seeded prefix of n calls (fillers and views), then every public view once in seeded order, then watch-only
+    wallets built from every public export, then the calls of the battery on the watch-only wallet."""
     hist = ['get_key']
-    watch_at = rng.randrange(4, n) if rng.random() < 0.4 else None
     has_tx = False
     for i in range(1, n):
-        if watch_at == i:
-            hist.append('to_watch_only')
-            has_tx = False
-            continue
-        c = rng.choice(W_FILLERS) if rng.random() < 0.4 else rng.choice(W_VIEWS)
+        c = rng.choice(W_FILLERS) if rng.random() < 0.6 else rng.choice(W_VIEWS)
         if c in ('tx_views', 'tx_save') and not has_tx:
             c = 'send'
         if c == 'send':
             has_tx = True
         hist.append(c)
-    return hist
+    battery = list(W_VIEWS)
+    rng.shuffle(battery)
+    if not has_tx:
+        battery.insert(rng.randrange(0, 4), 'send')
+    hist += battery
+    hist += ['to_watch_only']
+    tail = list(W_WATCH_BATTERY)
+    rng.shuffle(tail)
+    tail.remove('tx_save')
+    return hist + tail + ['tx_save']
 
 
 # =====================================================================================================================
